@@ -72,11 +72,11 @@ func (r DOM) Check(w *World) []Result {
 		return anchorMissing(r.ID, "DOM", r.Fn)
 	}
 	re := regexp.MustCompile(r.Sink)
-	sites := w.Sites(fn, re, !r.Shallow)
 	min := r.Min
 	if min == 0 {
 		min = 1
 	}
+	sites := w.SitesOr(fn, re, !r.Shallow, min)
 	construct := "DOM:" + r.Fn + "▸" + r.Sink
 	if len(sites) < min {
 		return []Result{one(r.ID, "DOM", construct, Violated, len(sites), w.Pos(fn.Pos()),
@@ -90,6 +90,11 @@ func (r DOM) Check(w *World) []Result {
 	for _, s := range sites {
 		for _, g := range r.Gates {
 			if !w.GuardedByConsistent(s, g, compileAll(r.Stable)) {
+				// the effect may sit in an extracted helper together with (part of) its guard: then every occurrence
+				// inside the helper must be guarded there, in this function's terms
+				if w.guardedInsideHelper(s, re, g) {
+					continue
+				}
 				out = append(out, one(r.ID, "DOM", construct+"⇐"+g.Text, Violated, len(sites), w.InstrPos(s),
 					fmt.Sprintf("effect `%s` in %s is reachable without passing guard {%s}", clip(w.RenderInstr(s), 160), FnName(s.Parent()), g.Text),
 					w.DominatingLits(s)...))
@@ -212,6 +217,7 @@ func (r POST) Check(w *World) []Result {
 		in   ssa.Instruction
 		fn   *ssa.Function
 		edge *ssa.BasicBlock // FromLit: start at the entry of this block
+		from *ssa.BasicBlock // …entered from this block (matters when edge is a boolean join)
 	}
 	var starts []start
 	if r.FromLit != "" {
@@ -224,16 +230,57 @@ func (r POST) Check(w *World) []Result {
 				}
 				for i, l := range []Lit{t, fl} {
 					if pat.Match(l) && len(b.Succs[i].Instrs) > 0 {
-						starts = append(starts, start{nil, f, b.Succs[i]})
+						starts = append(starts, start{nil, f, b.Succs[i], b})
+					}
+				}
+				// a materialised boolean: the literal may be one predecessor's operand of the join
+				if phi := boolJoin(b); phi != nil {
+					for _, e := range phi.Edges {
+						if _, isConst := e.(*ssa.Const); isConst {
+							continue
+						}
+						for i, l := range []Lit{w.NormLit(e, true), w.NormLit(e, false)} {
+							if pat.Match(l) && len(b.Succs[i].Instrs) > 0 {
+								starts = append(starts, start{nil, f, b.Succs[i], b})
+							}
+						}
+					}
+				}
+			}
+		}
+		if len(starts) == 0 {
+			// the condition may have been extracted into a helper: start from the caller's edges on which the helper
+			// reports an outcome that the literal forces
+			for _, f := range WithClosures(fn) {
+				for _, b := range f.Blocks {
+					if len(b.Instrs) == 0 || len(b.Succs) != 2 {
+						continue
+					}
+					ifi, ok := b.Instrs[len(b.Instrs)-1].(*ssa.If)
+					if !ok {
+						continue
+					}
+					call, idx, wantT, wantF, ok := condCallOutcome(ifi.Cond)
+					if !ok {
+						continue
+					}
+					for e, want := range []string{wantT, wantF} {
+						if w.helperImplies(f, call, idx, want, pat) && len(b.Succs[e].Instrs) > 0 {
+							starts = append(starts, start{nil, f, b.Succs[e], b})
+						}
 					}
 				}
 			}
 		}
 	} else if r.From == "" {
-		starts = append(starts, start{nil, fn, nil})
+		starts = append(starts, start{nil, fn, nil, nil})
 	} else {
-		for _, s := range w.Sites(fn, regexp.MustCompile(r.From), !r.Shallow) {
-			starts = append(starts, start{s, s.Parent(), nil})
+		m := r.Min
+		if m == 0 {
+			m = 1
+		}
+		for _, s := range w.SitesOr(fn, regexp.MustCompile(r.From), !r.Shallow, m) {
+			starts = append(starts, start{s, s.Parent(), nil, nil})
 		}
 	}
 	min := r.Min
@@ -249,9 +296,12 @@ func (r POST) Check(w *World) []Result {
 		var bad bool
 		var why string
 		if st.edge != nil {
-			bad, why = w.postSearch(st.fn, st.edge, 0, musts, spec, excuse)
+			bad, why = w.postSearchFrom(st.fn, st.edge, st.from, 0, musts, spec, excuse)
 		} else {
 			bad, why = w.postViolated(st.fn, st.in, musts, spec, excuse)
+			if bad && st.in != nil && r.From != "" && w.postInsideHelper(st.in, regexp.MustCompile(r.From), musts) {
+				bad = false // From and Must were extracted together: the obligation holds inside the helper
+			}
 		}
 		if bad {
 			pos := w.Pos(st.fn.Pos())
@@ -276,11 +326,24 @@ func (w *World) matchAny(in ssa.Instruction, res []*regexp.Regexp) bool {
 	}
 	s := w.RenderInstr(in)
 	for _, re := range res {
-		if re.MatchString(s) {
+		if MatchRe(re, s) {
 			return true
 		}
 	}
-	return false
+	if !w.inlineTrivial {
+		w.inlineTrivial = true
+		s2 := w.RenderInstr(in)
+		w.inlineTrivial = false
+		if s2 != s {
+			for _, re := range res {
+				if MatchRe(re, s2) {
+					return true
+				}
+			}
+		}
+	}
+	// a helper that executes a Must on every one of its paths counts as the Must
+	return w.calleeContains(in.Parent(), in, res, true)
 }
 
 // postViolated searches forward from `from` (exclusive; nil = entry) for an exit not preceded by a Must.
@@ -309,7 +372,14 @@ func (w *World) postViolated(fn *ssa.Function, from ssa.Instruction, musts []*re
 }
 
 func (w *World) postSearch(fn *ssa.Function, startBlock *ssa.BasicBlock, startIdx int, musts []*regexp.Regexp, spec RetSpec, excuse Gate) (bool, string) {
+	return w.postSearchFrom(fn, startBlock, nil, startIdx, musts, spec, excuse)
+}
+
+func (w *World) postSearchFrom(fn *ssa.Function, startBlock, startFrom *ssa.BasicBlock, startIdx int, musts []*regexp.Regexp, spec RetSpec, excuse Gate) (bool, string) {
 	cut := w.GateCut(fn, excuse)
+	// edges on which a helper's outcome implies that the helper executed a Must (the Must was extracted together with
+	// its error check: `if err := helper(); err != nil { return err }`)
+	mcut := w.GateCut(fn, Gate{Instrs: musts, Text: "must"})
 	sinks := map[*ssa.BasicBlock][]RetSink{}
 	for _, s := range w.ReturnSinks(fn, spec) {
 		sinks[s.Ret.Block()] = append(sinks[s.Ret.Block()], s)
@@ -320,7 +390,9 @@ func (w *World) postSearch(fn *ssa.Function, startBlock *ssa.BasicBlock, startId
 		pred *ssa.BasicBlock
 	}
 	seen := map[*ssa.BasicBlock]bool{}
-	stack := []item{{startBlock, startIdx, nil}}
+	type jk struct{ b, from *ssa.BasicBlock }
+	seenJ := map[jk]bool{}
+	stack := []item{{startBlock, startIdx, startFrom}}
 	for len(stack) > 0 {
 		it := stack[len(stack)-1]
 		stack = stack[:len(stack)-1]
@@ -338,10 +410,30 @@ func (w *World) postSearch(fn *ssa.Function, startBlock *ssa.BasicBlock, startId
 			if s.Pred != nil && it.pred != nil && s.Pred != it.pred {
 				continue
 			}
+			// `return helper(...)`: the outcome is the helper's, and the helper only produces it after a Must
+			if w.returnsHelperOutcome(fn, s, spec, Gate{Instrs: musts, Text: "must"}) {
+				continue
+			}
 			return true, s.Desc + " @" + w.InstrPos(s.Ret)
 		}
-		for i, succ := range it.b.Succs {
-			if cut.Edges[EdgeKey{it.b, i}] {
+		var idxs []int
+		if phi := boolJoin(it.b); phi != nil && it.pred != nil {
+			idxs = joinSuccs(it.b, phi, it.pred, cut)
+		} else {
+			for i := range it.b.Succs {
+				idxs = append(idxs, i)
+			}
+		}
+		for _, i := range idxs {
+			succ := it.b.Succs[i]
+			if cut.Edges[EdgeKey{it.b, i}] || mcut.Edges[EdgeKey{it.b, i}] {
+				continue
+			}
+			if boolJoin(succ) != nil {
+				if !seenJ[jk{succ, it.b}] {
+					seenJ[jk{succ, it.b}] = true
+					stack = append(stack, item{succ, 0, it.b})
+				}
 				continue
 			}
 			if seen[succ] {
@@ -352,6 +444,119 @@ func (w *World) postSearch(fn *ssa.Function, startBlock *ssa.BasicBlock, startId
 		}
 	}
 	return false, ""
+}
+
+// returnsHelperOutcome: the return sink hands back the result of a helper call, and every return of the helper with the
+// outcome of interest is guarded (inside the helper, in the caller's terms) by g.
+func (w *World) returnsHelperOutcome(fn *ssa.Function, s RetSink, spec RetSpec, g Gate) bool {
+	if spec.Want == "any" || spec.Want == "nilconst" || len(s.Ret.Results) == 0 {
+		return false
+	}
+	idx := spec.Index
+	if idx < 0 {
+		idx = len(s.Ret.Results) + idx
+	}
+	if idx < 0 || idx >= len(s.Ret.Results) {
+		return false
+	}
+	v := resolveSpilled(s.Ret, s.Ret.Results[idx])
+	switch x := v.(type) {
+	case *ssa.Call:
+		return w.calleeEstablishes(fn, x, -1, spec.Want, g)
+	case *ssa.Extract:
+		if c, ok := x.Tuple.(*ssa.Call); ok {
+			return w.calleeEstablishes(fn, c, x.Index, spec.Want, g)
+		}
+	}
+	return false
+}
+
+// postInsideHelper: `site` is a call to a private helper that contains the From instruction(s); inside the helper every
+// path from each of them to any return executes a Must (read in the caller's terms).
+func (w *World) postInsideHelper(site ssa.Instruction, from *regexp.Regexp, musts []*regexp.Regexp) bool {
+	caller := site.Parent()
+	f, args, ok := w.helperCallee(caller, site)
+	if !ok || w.seeDepth >= maxSeeDepth || !w.privateTo(f, caller) {
+		return false
+	}
+	m := map[*ssa.Parameter]string{}
+	for j, p := range f.Params {
+		m[p] = w.Render(args[j])
+	}
+	w.subst = append(w.subst, m)
+	w.seeDepth++
+	seeThrough++
+	defer func() {
+		w.subst = w.subst[:len(w.subst)-1]
+		w.seeDepth--
+		seeThrough--
+	}()
+	inner := w.Sites(f, from, false)
+	if len(inner) == 0 {
+		return false
+	}
+	for _, in := range inner {
+		if bad, _ := w.postViolated(f, in, musts, RetAny, Gate{}); bad {
+			return false
+		}
+	}
+	return true
+}
+
+// helperImplies: inside the private helper called by `call`, the literal occurs, and from every edge on which it holds only
+// returns with outcome `want` are reachable: literal ⇒ the helper reports `want`.
+func (w *World) helperImplies(caller *ssa.Function, call *ssa.Call, idx int, want string, pat LitPat) bool {
+	f, args, ok := w.helperCallee(caller, call)
+	if !ok || w.seeDepth >= maxSeeDepth || !w.privateTo(f, caller) {
+		return false
+	}
+	opposite := map[string]string{"true": "false", "false": "true", "nil": "nonnil", "nonnil": "nil"}[want]
+	if opposite == "" {
+		return false
+	}
+	m := map[*ssa.Parameter]string{}
+	for j, p := range f.Params {
+		m[p] = w.Render(args[j])
+	}
+	w.subst = append(w.subst, m)
+	w.seeDepth++
+	seeThrough++
+	defer func() {
+		w.subst = w.subst[:len(w.subst)-1]
+		w.seeDepth--
+		seeThrough--
+	}()
+	others := w.ReturnSinks(f, RetSpec{Index: idx, Want: opposite})
+	n := 0
+	// the literal may be returned as a value rather than branched on: `return a || b()` yields `want` exactly when b() does
+	for _, s := range w.ReturnSinks(f, RetSpec{Index: idx, Want: want}) {
+		if s.Lit != nil && pat.Match(*s.Lit) {
+			n++
+		}
+	}
+	for _, b := range f.Blocks {
+		t, fl, ok := w.BlockLits(b)
+		if !ok {
+			continue
+		}
+		for i, l := range []Lit{t, fl} {
+			if !pat.Match(l) {
+				continue
+			}
+			n++
+			reach := Reach([]*ssa.BasicBlock{b.Succs[i]}, nil)
+			for _, s := range others {
+				if s.Pred != nil {
+					if reach[s.Pred] || (s.Pred == b && b.Succs[i] == s.Ret.Block()) {
+						return false
+					}
+				} else if reach[s.Ret.Block()] {
+					return false
+				}
+			}
+		}
+	}
+	return n > 0
 }
 
 func instrIndex(in ssa.Instruction) int {
@@ -400,6 +605,14 @@ func (r WMC) Check(w *World) []Result {
 			found[root]++
 			total++
 			if !allowed[root] {
+				// an unexported helper whose only (transitive) callers are allowed functions acts on their behalf:
+				// the effect was extracted, not given to somebody else
+				if owners := w.privateHelperOf(RootFn(fn), allowed, 0); len(owners) > 0 {
+					for _, o := range owners {
+						found[o]++
+					}
+					continue
+				}
 				out = append(out, one(r.ID, "WMC", construct+"@"+root, Violated, 0, w.InstrPos(s),
 					fmt.Sprintf("unclassified site of `%s` in %s: `%s` — only {%s} may do this", r.Sink, root, clip(w.RenderInstr(s), 140), strings.Join(r.Allowed, ", "))))
 			}
@@ -420,6 +633,41 @@ func (r WMC) Check(w *World) []Result {
 		out = append(out, one(r.ID, "WMC", construct, Discharged, total, "", fmt.Sprintf("%d site(s) in %d function(s), all classified", total, len(found)), facts...))
 	}
 	return out
+}
+
+// privateHelperOf: h is an unexported function all of whose callers (transitively, through unexported helpers) are allowed
+// functions; returns those allowed functions, or nil.
+func (w *World) privateHelperOf(h *ssa.Function, allowed map[string]bool, depth int) []string {
+	if depth > 3 || h.Object() == nil || h.Object().Exported() {
+		return nil
+	}
+	var owners []string
+	callers := w.CG().CallersOf(h)
+	n := 0
+	for _, c := range callers {
+		if IsTestSupport(c) {
+			continue
+		}
+		root := RootFn(c)
+		if root == h {
+			continue
+		}
+		n++
+		name := FnName(root)
+		if allowed[name] {
+			owners = append(owners, name)
+			continue
+		}
+		sub := w.privateHelperOf(root, allowed, depth+1)
+		if len(sub) == 0 {
+			return nil
+		}
+		owners = append(owners, sub...)
+	}
+	if n == 0 {
+		return nil
+	}
+	return owners
 }
 
 // ---------------------------------------------------------------------------
